@@ -25,7 +25,8 @@ RULE = (
     "placements of the same settings give identical output trees and a conflict resolves to the command-line value; "
     "omitted defaults == explicit defaults (8 host bits, the seven class/private prefixes); --preserve-private-addresses == "
     "listing the three RFC 1918 networks (also merged with further addresses); main(argv) == anonymize_files with the "
-    "denoted values. Non-trivial = vector with options both in the config file and on the command line, or a rejected "
+    "denoted values; subprocess: a sample of the vectors through `python -m netconan.netconan` in a real process (exit "
+    "status, nothing written on rejection, same tree as in-process). Non-trivial = vector with options both in the config file and on the command line, or a rejected "
     "combination; distinct by case."
 )
 ASSUMPTIONS = [
@@ -143,6 +144,19 @@ def _setup(d):
             fh.write(text)
 
 
+def _reject_argv(argv, kind):
+    if kind == "reject:no-input":
+        return [a for i, a in enumerate(argv) if not (a == "-i" or (i and argv[i - 1] == "-i"))]
+    if kind == "reject:no-output":
+        return [a for i, a in enumerate(argv) if not (a == "-o" or (i and argv[i - 1] == "-o"))]
+    argv = list(argv)
+    if kind == "reject:empty-input":
+        argv[argv.index("-i") + 1] = ""
+    elif kind == "reject:empty-output":
+        argv[argv.index("-o") + 1] = ""
+    return argv
+
+
 def check_vector(case, ev):
     settings, placement, kind = case["settings"], case["placement"], case["kind"]
     d = tempfile.mkdtemp(prefix="vf-c19-")
@@ -155,14 +169,7 @@ def check_vector(case, ev):
         ev.case(case, kind != "valid" or (ncfg >= 1 and ncli >= 1), ["kind-" + kind.split(":")[0]] + (["conflict"] if "conflict" in placement.values() else []) + (["cfg-and-cli"] if ncfg and ncli else []))
         argv = build(settings, placement, d, "a", case.get("cfg_style", 0), case.get("long", False))
         if kind.startswith("reject"):
-            if kind == "reject:no-input":
-                argv = [a for i, a in enumerate(argv) if not (a == "-i" or (i and argv[i - 1] == "-i"))]
-            elif kind == "reject:no-output":
-                argv = [a for i, a in enumerate(argv) if not (a == "-o" or (i and argv[i - 1] == "-o"))]
-            elif kind == "reject:empty-input":
-                argv[argv.index("-i") + 1] = ""
-            elif kind == "reject:empty-output":
-                argv[argv.index("-o") + 1] = ""
+            argv = _reject_argv(argv, kind)
             before = _snapshot(d)
             status, info = _run_main(argv)
             after = _snapshot(d)
@@ -245,7 +252,43 @@ def _cfg_text(d, tag):
     return open(p).read() if os.path.exists(p) else None
 
 
-REPLAY = {"vectors": check_vector}
+def check_subprocess(case, ev):
+    """The same vector through a real interpreter process (`python -m netconan.netconan`): exit
+    status 0 / != 0 as for the in-process call, and identical output tree."""
+    import subprocess
+
+    settings, placement, kind = case["settings"], case["placement"], case["kind"]
+    d = tempfile.mkdtemp(prefix="vf-c19s-")
+    try:
+        _setup(d)
+        argv = build(settings, placement, d, "a", case.get("cfg_style", 0), case.get("long", False))
+        if kind.startswith("reject"):
+            argv = _reject_argv(argv, kind)
+        env = dict(os.environ, PYTHONPATH=core.REPO, PYTHONDONTWRITEBYTECODE="1", PYTHONUTF8="1")
+        p = subprocess.run([sys.executable, "-m", "netconan.netconan"] + argv, capture_output=True, text=True, env=env, cwd=d, timeout=300)
+        outa = _tree(os.path.join(d, "out-a"))
+        ev.case(case, True, ["kind-" + kind.split(":")[0]])
+        if kind.startswith("reject"):
+            if p.returncode == 0:
+                return Finding("subprocess/rejected-vector-exits-0:" + kind.split(":")[1], "argv %r: exit 0, stderr %r" % (argv, p.stderr[-300:]), case)
+            if outa:
+                return Finding("subprocess/something-written-before-rejection:" + kind.split(":")[1], "argv %r created %r" % (argv, sorted(outa)), case)
+            return None
+        if p.returncode != 0:
+            return Finding("subprocess/valid-vector-fails", "argv %r: exit %d, stderr %r" % (argv, p.returncode, p.stderr[-400:]), case)
+        if kind == "none":
+            return Finding("subprocess/something-written-without-anonymization-option", "%r" % sorted(outa), case) if outa else None
+        argv2 = build(settings, placement, d, "b", case.get("cfg_style", 0), case.get("long", False))
+        status, info = _run_main(argv2)
+        outb = _tree(os.path.join(d, "out-b"))
+        if status != "ok" or outa != outb:
+            return Finding("subprocess/differs-from-in-process-main", "argv %r: in-process %s, trees equal: %r" % (argv, status, outa == outb), case)
+    finally:
+        shutil.rmtree(d, ignore_errors=True)
+    return None
+
+
+REPLAY = {"vectors": check_vector, "subprocess": check_subprocess}
 
 _salts = st.text(alphabet="abcXYZ019_", min_size=1, max_size=8)
 _addr_choices = ["10.1.0.0/16", "192.168.1.77", "8.8.0.0/16", "172.16.9.0/24", "100.64.0.0/10", "11.12.13.14", "10.0.0.0/8"]
@@ -308,6 +351,14 @@ def t_vectors(shard, nshards, seed, ev, known, n=50):
     return core.hyp_drive(_case(), check_vector, n, seed, ev, known, check_name="vectors", max_keys=8)
 
 
+def t_subprocess(shard, nshards, seed, ev, known, n=5):
+    cases = core.collect_cases(_case().filter(lambda c: c["kind"] not in ("reject:empty-input", "reject:empty-output")), n + 2, seed)[2:]
+    return core.enum_drive(cases, check_subprocess, ev, known, "subprocess")
+
+
 def plan(tier):
     q = tier == "quick"
-    return [Task("vectors", t_vectors, shards=8 if q else 16, n=400 if q else 3000)]
+    return [
+        Task("vectors", t_vectors, shards=8 if q else 16, n=400 if q else 3000),
+        Task("subprocess", t_subprocess, shards=4 if q else 16, n=5 if q else 40),
+    ]
